@@ -167,8 +167,8 @@ DEVIATIONS = ("D_BlockingGet", "D_NoWakeOnClose", "D_ServerEofIgnored", "D_Setup
 CASES = [(role, cause, point) for role in ("client", "server")
          for cause, points in (("local", ("open", "open-inbound", "open-outbound")),
                                ("dpr", ("open", "open-inbound", "open-outbound", "closing")),
-                               ("eof", ("setup", "wait-cea", "open", "open-inbound", "open-outbound", "closing")),
-                               ("rst", ("setup", "wait-cea", "open", "open-outbound", "closing")),
+                               ("eof", ("setup", "wait-cea", "open", "open-inbound", "open-partial", "open-outbound", "closing")),
+                               ("rst", ("setup", "wait-cea", "open", "open-partial", "open-outbound", "closing")),
                                ("refused", ("refused",)))
          for point in points
          if not (role == "server" and point in ("wait-cea", "refused")) and not (role == "client" and point == "setup" and cause not in ("eof", "rst"))]
